@@ -50,7 +50,7 @@ def check(w, tier, t0):
     if not r.ok:
         raise lib.Inconclusive("RoundTrip model run failed:\n" + (r.error or ""))
     states, trans = r.distinct, r.generated
-    n = 60 if tier == "quick" else 1500
+    n = 60 if tier == "quick" else 10000
     d = w.sub("run")
     events = []
     with ThreadPoolExecutor(max_workers=8) as ex:
